@@ -221,6 +221,23 @@ async fn park(stage: &str, port: u16, proxied: bool) -> Option<Tcp> {
                 "mid-login" => {
                     let _ = login(&mut t, 2, "Staller", 9, None, "loginstart", Duration::from_millis(500)).await;
                 }
+                // half a frame, then the client closes its sending direction (FIN) but keeps the socket open
+                "half-close" => {
+                    let f = crate::refcodec::frame(0, &body_handshake(770, "play.example.org", 25565, 2));
+                    let _ = t.send_raw(&f[..f.len() / 2]).await;
+                    let _ = tokio::io::AsyncWriteExt::shutdown(&mut t.s).await;
+                }
+                // a flood from ONE announced source address: more connections than the limiter allows for it
+                "flood" => {
+                    for _ in 0..6 {
+                        if let Ok(mut f) = Tcp::connect(SocketAddr::new("127.0.0.1".parse().unwrap(), port), None).await {
+                            if proxied {
+                                let _ = f.send_raw(&hdr).await;
+                            }
+                            let _ = status_exchange(&mut f, None, Duration::from_millis(300)).await;
+                        }
+                    }
+                }
                 "no-echo" => {
                     let o = login(&mut t, 2, "Mute", 10, None, "success", Duration::from_millis(1500)).await;
                     if o.login_success.is_some() {
@@ -274,12 +291,27 @@ async fn run_c17(sc: &Value) -> Value {
     let timeout_ms = sc["cfg"]["timeoutMs"].as_u64().unwrap_or(3000);
     let mut tasks = vec![];
     for st in sc["inflight"].as_array().cloned().unwrap_or_default() {
-        let stage = st.as_str().unwrap_or("").to_string();
+        // "stage" or "stage@startDelayMs"
+        let spec = st.as_str().unwrap_or("").to_string();
+        let (stage, start_delay) = match spec.split_once('@') {
+            Some((a, b)) => (a.to_string(), b.parse::<u64>().unwrap_or(0)),
+            None => (spec.clone(), 0),
+        };
+        let proxied = sc["cfg"]["proxy"].as_str().unwrap_or("off") != "off";
+        let stop_after = sc["stopAfterMs"].as_u64().unwrap_or(400);
         tasks.push(tokio::spawn(async move {
+            tokio::time::sleep(Duration::from_millis(start_delay)).await;
             let Ok(mut t) = Tcp::connect(SocketAddr::new("127.0.0.1".parse().unwrap(), port), None).await else {
                 return json!({"stage": stage, "end": "connect-error", "endMs": 0, "cooperating": false});
             };
             let started = t0.elapsed().as_millis() as u64;
+            if proxied {
+                if stage == "header-after-stop" {
+                    // accepted before the stop, the PROXY header only arrives after it: still an in-flight connection
+                    tokio::time::sleep(Duration::from_millis((stop_after + 200).saturating_sub(started))).await;
+                }
+                let _ = t.send_raw(&proxy_v1(label_addr("ipA"), format!("10.0.0.1:{port}").parse().unwrap())).await;
+            }
             let (end, coop) = match stage.as_str() {
                 "accepted-silent" => ("eof-or-timeout".to_string(), false),
                 "mid-login" => {
@@ -306,12 +338,16 @@ async fn run_c17(sc: &Value) -> Value {
     let stop_ms = t0.elapsed().as_millis() as u64;
     // late arrivals
     let mut late_tasks = vec![];
+    let late_proxied = sc["cfg"]["proxy"].as_str().unwrap_or("off") != "off";
     for k in 0..sc["late"].as_u64().unwrap_or(1) {
         late_tasks.push(tokio::spawn(async move {
             tokio::time::sleep(Duration::from_millis(200 + 150 * k)).await;
             match Tcp::connect(SocketAddr::new("127.0.0.1".parse().unwrap(), port), None).await {
                 Err(_) => json!({"outcome": "refused", "bytes": 0}),
                 Ok(mut t) => {
+                    if late_proxied {
+                        let _ = t.send_raw(&proxy_v1(label_addr("ipB"), format!("10.0.0.1:{port}").parse().unwrap())).await;
+                    }
                     let o = status_exchange(&mut t, None, Duration::from_millis(700)).await;
                     json!({"outcome": o, "bytes": t.bytes_received})
                 }
@@ -331,6 +367,46 @@ async fn run_c17(sc: &Value) -> Value {
     json!({"family": "C17", "cfg": sc["cfg"], "discoverDelayMs": delay, "stopMs": stop_ms, "returnedMs": returned_ms, "inflight": inflight, "late": late, "timeoutMs": timeout_ms})
 }
 
+/// A tracing layer that stalls inside the span of `RateLimiter::enqueue` (which is entered while the limiter is held):
+/// it widens the window in which two connections are decided at the same moment from nanoseconds to `ms`.
+struct StallEnqueue(u64);
+impl<S: tracing::Subscriber + for<'a> tracing_subscriber::registry::LookupSpan<'a>> tracing_subscriber::Layer<S> for StallEnqueue {
+    fn on_enter(&self, id: &tracing::span::Id, ctx: tracing_subscriber::layer::Context<'_, S>) {
+        if ctx.span(id).map(|s| s.name() == "enqueue").unwrap_or(false) {
+            std::thread::sleep(Duration::from_millis(self.0));
+        }
+    }
+}
+
+// ---------------------------------------------------------------------------------------------
+// C15 (race): n connections from the same address at the same moment
+// ---------------------------------------------------------------------------------------------
+async fn run_c15race(sc: &Value) -> Value {
+    let run = start(&sc["cfg"], 0).await;
+    let n = sc["n"].as_u64().unwrap_or(4);
+    let port = run.port;
+    let mut hs = vec![];
+    for _ in 0..n {
+        hs.push(tokio::spawn(async move {
+            match Tcp::connect(SocketAddr::new("127.0.0.1".parse().unwrap(), port), None).await {
+                Err(_) => json!({"outcome": "connect-error", "bytes": 0}),
+                Ok(mut t) => {
+                    let o = status_exchange(&mut t, None, Duration::from_millis(3000)).await;
+                    json!({"outcome": o, "bytes": t.bytes_received})
+                }
+            }
+        }));
+    }
+    let mut res = vec![];
+    for h in hs {
+        res.push(h.await.unwrap_or(json!({"outcome": "panic", "bytes": 0})));
+    }
+    run.stop.cancel();
+    let _ = tokio::time::timeout(Duration::from_secs(5), run.handle).await;
+    let served = res.iter().filter(|r| r["outcome"] == "served").count();
+    json!({"family": "C15race", "cfg": sc["cfg"], "n": n, "results": res, "served": served})
+}
+
 pub fn main(args: &[String]) {
     let mut input = None;
     let mut output = None;
@@ -341,6 +417,11 @@ pub fn main(args: &[String]) {
             "--in" => input = it.next().cloned(),
             "--out" => output = it.next().cloned(),
             "--parallel" => parallel = it.next().and_then(|s| s.parse().ok()).unwrap_or(8),
+            "--stall-enqueue-ms" => {
+                use tracing_subscriber::layer::SubscriberExt;
+                let ms = it.next().and_then(|s| s.parse().ok()).unwrap_or(50);
+                let _ = tracing::subscriber::set_global_default(tracing_subscriber::registry().with(StallEnqueue(ms)));
+            }
             _ => {}
         }
     }
@@ -357,6 +438,7 @@ pub fn main(args: &[String]) {
                 let _p = sem.acquire().await.unwrap();
                 let mut r = match sc["family"].as_str().unwrap_or("") {
                     "C15" => run_c15(&sc).await,
+                    "C15race" => run_c15race(&sc).await,
                     "C16" => run_c16(&sc).await,
                     "C17" => run_c17(&sc).await,
                     _ => json!({"family": "?"}),
